@@ -252,3 +252,132 @@ pub fn flow_violations(
     out.truncate(6);
     (out, near)
 }
+
+/// Disjoint-range set over u64 (half-open), for the send-window ledger
+#[derive(Default, Clone)]
+struct Ranges(BTreeMap<u64, u64>);
+impl Ranges {
+    fn insert(&mut self, mut a: u64, mut b: u64) {
+        if a >= b {
+            return;
+        }
+        let keys: Vec<u64> = self.0.range(..=b).filter(|(s, e)| **e >= a && **s <= b).map(|(s, _)| *s).collect();
+        for k in keys {
+            let e = self.0.remove(&k).unwrap();
+            a = a.min(k);
+            b = b.max(e);
+        }
+        self.0.insert(a, b);
+    }
+    fn len(&self) -> u64 {
+        self.0.iter().map(|(s, e)| e - s).sum()
+    }
+    /// |self \ other|
+    fn minus_len(&self, other: &Ranges) -> u64 {
+        let mut n = 0;
+        for (&s, &e) in &self.0 {
+            let mut cur = s;
+            for (&os, &oe) in other.0.range(..e) {
+                if oe <= cur {
+                    continue;
+                }
+                if os > cur {
+                    n += os.min(e) - cur;
+                }
+                cur = cur.max(oe);
+                if cur >= e {
+                    break;
+                }
+            }
+            if cur < e {
+                n += e - cur;
+            }
+        }
+        n
+    }
+}
+
+/// Send-window ledger (C05): the stream bytes `sender` has put on the wire and that no ACK frame
+/// delivered to it has acknowledged yet (streams it reset excluded from the RESET_STREAM on) never
+/// exceed `max_window`, the largest send window in effect during the run. Everything is taken
+/// from the harness's own decoding of emitted and delivered datagrams. Returns violations and the
+/// peak observed.
+pub fn send_window_violations(p: &crate::scen::StdPair, sender: usize, max_window: u64) -> (Vec<(String, String)>, u64) {
+    use crate::wire::*;
+    let mut out = vec![];
+    let mut sent: BTreeMap<u64, Ranges> = BTreeMap::new();
+    let mut acked: BTreeMap<u64, Ranges> = BTreeMap::new();
+    let mut reset: std::collections::BTreeSet<u64> = Default::default();
+    let mut by_pn: BTreeMap<u64, Vec<(u64, u64, u64)>> = BTreeMap::new();
+    let mut last_pn: Option<u64> = None;
+    let mut emitted: BTreeMap<u64, (usize, std::net::SocketAddr)> = BTreeMap::new();
+    let mut data_of: BTreeMap<u64, &Vec<u8>> = BTreeMap::new();
+    let mut peak = 0u64;
+    for r in &p.w.recs {
+        match r {
+            Rec::Emit { node, idx, data, dst, ch: Some(_), t, .. } => {
+                emitted.insert(*idx, (*node, *dst));
+                data_of.insert(*idx, data);
+                if *node != sender {
+                    continue;
+                }
+                for (pk, frames) in decode(data, cid_len_of(&p.w, *dst)) {
+                    if !matches!(pk.ty, PType::Short | PType::ZeroRtt) {
+                        continue;
+                    }
+                    let pn = expand_pn(last_pn, pk.pn_trunc, pk.pn_len);
+                    last_pn = Some(last_pn.map_or(pn, |l| l.max(pn)));
+                    for f in frames {
+                        match f {
+                            WFrame::Stream { id, off, data, .. } => {
+                                let e = off + data.len() as u64;
+                                sent.entry(id).or_default().insert(off, e);
+                                by_pn.entry(pn).or_default().push((id, off, e));
+                            }
+                            WFrame::ResetStream { id, .. } => {
+                                reset.insert(id);
+                            }
+                            _ => {}
+                        }
+                    }
+                }
+                let empty = Ranges::default();
+                let u: u64 = sent.iter().filter(|(id, _)| !reset.contains(id)).map(|(id, s)| s.minus_len(acked.get(id).unwrap_or(&empty))).sum();
+                peak = peak.max(u);
+                if u > max_window && out.is_empty() {
+                    out.push((
+                        "send-window-exceeded".into(),
+                        format!("at {t:?} node{sender} has {u} stream bytes on the wire that no delivered ACK covers (streams it reset excluded), its send window never was above {max_window}"),
+                    ));
+                }
+            }
+            Rec::Deliver { node, idx, .. } if *node == sender => {
+                let Some((from, _)) = emitted.get(idx) else { continue };
+                if *from == sender {
+                    continue;
+                }
+                let Some(data) = data_of.get(idx) else { continue };
+                let my_cid_len = p.w.nodes[sender].cid_len;
+                for (pk, frames) in decode(data, my_cid_len) {
+                    if pk.ty != PType::Short {
+                        continue;
+                    }
+                    for f in frames {
+                        if let WFrame::Ack(a) = f {
+                            for (lo, hi) in a.ranges {
+                                for (_, v) in by_pn.range(lo..=hi) {
+                                    for (id, s, e) in v {
+                                        acked.entry(*id).or_default().insert(*s, *e);
+                                    }
+                                }
+                            }
+                        }
+                    }
+                }
+            }
+            _ => {}
+        }
+    }
+    let _ = Ranges::len;
+    (out, peak)
+}
